@@ -1670,6 +1670,11 @@ class Fn:
     def subscript(self, node, env, L):
         base, bt = self.ex(node.value, env, L)
         if bt != BYTES:
+            if isinstance(bt, tuple) and bt[0] == "tuple" and isinstance(node.slice, ast.Constant) and isinstance(node.slice.value, int) \
+                    and 0 <= node.slice.value < len(bt[1]) and len(bt[1]) >= 2:
+                k_, n_ = node.slice.value, len(bt[1])
+                proj = ".2" * k_ + ("" if k_ == n_ - 1 else ".1")
+                return f"{paren(base)}{proj}", bt[1][k_]
             if isinstance(bt, tuple) and bt[0] == "list" and isinstance(node.slice, ast.Constant) and isinstance(node.slice.value, int) and node.slice.value >= 0:
                 tmp = self.tr.fresh("v")
                 L.append(f"let {tmp} ← {self.lift(f'listAt {paren(base)} {node.slice.value}')}")
@@ -2704,7 +2709,85 @@ def watchdog_spec() -> ModSpec:
     )
 
 
-MODULES = {"Ash": ash_spec, "Uart": uart_spec, "Mcast": multicast_spec, "Wd": watchdog_spec}
+# --------------------------------------------------------------------------- bellows/ezsp/v4, v5, v8: frame headers
+
+HDR_STATE_DECL = """/-- the fields of a protocol handler the header code touches: the sequence counter and the command table (name -> frame ID) -/
+structure Handler where
+  seq : Nat := 0
+  cmds : List (String × Nat) := []
+deriving Repr, DecidableEq
+
+/-- `self.COMMANDS[name]`: (frame ID, tx schema, rx schema); KeyError for an unknown name -/
+def cmdLookup (name : String) : PyM Handler (Nat × Unit × Unit) := fun s =>
+  match s.cmds.lookup name with
+  | some i => (.ok (i, (), ()), s)
+  | none => (.error (.raised "KeyError"), s)
+
+/-- `t.uint16_t(x).serialize()`: two bytes, little endian; ValueError beyond 16 bits -/
+def u16ser (x : Nat) : Except PyErr (List UInt8) :=
+  if x < 65536 then .ok [UInt8.ofNat (x % 256), UInt8.ofNat (x / 256)] else .error (.raised "ValueError")
+
+/-- `t.uint16_t.deserialize(data)`: (value, rest); ValueError on fewer than two bytes -/
+def u16de : List UInt8 → Except PyErr (Nat × List UInt8)
+  | lo :: hi :: rest => .ok (lo.toNat + 256 * hi.toNat, rest)
+  | _ => .error (.raised "ValueError")
+"""
+
+
+def _hdr_spec(module, cls, ns):
+    def ext(fn, node, env, L):
+        src = ast.unparse(node)
+        if isinstance(node, ast.Subscript) and ast.unparse(node.value) == "self.COMMANDS":
+            k, kt = fn.ex(node.slice, env, L)
+            if kt != STR:
+                raise Unsupported("COMMANDS[...] with a key that is not a name")
+            tmp = fn.tr.fresh("c")
+            L.append(f"let {tmp} ← cmdLookup {paren(k)}")
+            return tmp, tup(NAT, ("lean", "Unit"), ("lean", "Unit"))
+        if isinstance(node, ast.Call):
+            f = node.func
+            if isinstance(f, ast.Attribute) and f.attr == "serialize" and not node.args and isinstance(f.value, ast.Call) \
+                    and ast.unparse(f.value.func) == "t.uint16_t" and len(f.value.args) == 1:
+                a, at = fn.ex(f.value.args[0], env, L)
+                if at != NAT:
+                    raise Unsupported("uint16_t of " + str(at))
+                tmp = fn.tr.fresh("b")
+                L.append(f"let {tmp} ← {fn.lift('u16ser ' + paren(a))}")
+                return tmp, BYTES
+            if ast.unparse(f) == "t.uint16_t.deserialize" and len(node.args) == 1:
+                a, at = fn.ex(node.args[0], env, L)
+                if at != BYTES:
+                    raise Unsupported("uint16_t.deserialize of " + str(at))
+                tmp = fn.tr.fresh("p")
+                L.append(f"let {tmp} ← {fn.lift('u16de ' + paren(a))}")
+                return tmp, tup(NAT, BYTES)
+        return None
+
+    st = StateSpec(pyclass=cls, lean="Handler", fields={"_seq": ("seq", NAT)})
+    return ModSpec(
+        module=module, ns=ns, imports=["BV.Py.HdrEnv"], opens=["BV.Py"], unions={},
+        fns=[
+            FnSpec(f"{cls}._ezsp_frame_tx", params={"name": STR}, ret=BYTES, lean_name="frame_tx"),
+            FnSpec(f"{cls}._ezsp_frame_rx", params={"data": BYTES}, ret=tup(NAT, NAT, BYTES), lean_name="frame_rx"),
+        ],
+        state=st, ext_expr=ext,
+    )
+
+
+def hdr_v4_spec():
+    return _hdr_spec("bellows.ezsp.v4", "EZSPv4", "BV.Src.HdrV4")
+
+
+def hdr_v5_spec():
+    return _hdr_spec("bellows.ezsp.v5", "EZSPv5", "BV.Src.HdrV5")
+
+
+def hdr_v8_spec():
+    return _hdr_spec("bellows.ezsp.v8", "EZSPv8", "BV.Src.HdrV8")
+
+
+MODULES = {"Ash": ash_spec, "Uart": uart_spec, "Mcast": multicast_spec, "Wd": watchdog_spec,
+           "HdrV4": hdr_v4_spec, "HdrV5": hdr_v5_spec, "HdrV8": hdr_v8_spec}
 
 
 def translate_module(spec: ModSpec):
